@@ -312,6 +312,7 @@ def run_real(env: Env, case, steps=()):
                     outs = f(
                         operands["initial_state_and_scan_inputs"], body=cbs["body"],
                         num_scan_inputs=case["ints"]["num_scan_inputs"], scan_input_axes=case.get("axes"),
+                        **case.get("scan_attrs", {}),
                     )
                 else:
                     outs = f(singles["input_sequence"], operands["additional_inputs"], body=cbs["body"])
@@ -695,6 +696,16 @@ def finish_case(case, rng, container=None):
         ops = case["lists"]["initial_state_and_scan_inputs"]
         if len(ops) - case["ints"]["num_scan_inputs"] + case["k_extra"] <= 0:
             case["k_extra"] = 1
+    if ctor == "scan" and "scan_attrs" not in case and rng.random() < 0.4:
+        m_, k_ = case["ints"]["num_scan_inputs"], case["k_extra"]
+        attrs = {}
+        if rng.random() < 0.7 and m_ > 0:
+            attrs["scan_input_directions"] = [rng.randrange(2) for _ in range(m_)]
+        if rng.random() < 0.6 and k_ > 0:
+            attrs["scan_output_directions"] = [rng.randrange(2) for _ in range(k_)]
+        if rng.random() < 0.6 and k_ > 0:
+            attrs["scan_output_axes"] = [rng.choice([0, 0, 1, -1]) for _ in range(k_)]
+        case["scan_attrs"] = attrs
     cont = container or rng.choice(["list", "list", "tuple", "gen", "map", "dictkeys"])
     if ctor == "if_":
         n = case.get("n_if", 1)
@@ -852,7 +863,7 @@ def gen_cases(ck, info):
 
 
 # ----------------------------------------------------------------------------- onnxruntime programs
-ORT_PROGS = ["loop_uses_args", "scan_rank1_state", "scan_rank2_state_two_scans", "scan_two_states",
+ORT_PROGS = ["loop_uses_args", "scan_rank1_state", "scan_reverse_out_axis", "scan_rank2_state_two_scans", "scan_two_states",
              "seqmap_tensor_extra", "seqmap_seq_extra", "if_no_args"]
 
 
@@ -896,6 +907,29 @@ def run_ort_prog(env: Env, mod_name, prog, seed):
                     vs = vs + np.float32(it)
                     av = av + np.float32(it)
                 expect = [vs, av, np.stack(scs)]
+            elif prog == "scan_reverse_out_axis":
+                # input scanned in reverse, scan output stacked along axis 1: body argument types unchanged
+                t = int(rng.integers(2, 5))
+                d = int(rng.integers(1, 4))
+                st = arg(Tn(np.float32, (d,)))
+                xs = arg(Tn(np.float32, (t, d)))
+
+                def body(s_, x):
+                    calls.append(1)
+                    y = op.add(op.mul(s_, op.const(np.float32(0.5))), x)
+                    return [y, y]
+
+                f, ys = op.scan([st, xs], body=body, num_scan_inputs=1, scan_input_directions=[1],
+                                scan_output_axes=[1], scan_output_directions=[0])
+                ins, outs = {"st": st, "xs": xs}, {"f": f, "ys": ys}
+                sv = rng.standard_normal(d).astype(np.float32)
+                xv = rng.standard_normal((t, d)).astype(np.float32)
+                feeds = {"st": sv, "xs": xv}
+                cur, ysv = sv.copy(), []
+                for i in reversed(range(t)):
+                    cur = cur * np.float32(0.5) + xv[i]
+                    ysv.append(cur)
+                expect = [cur, np.stack(ysv, axis=1)]
             elif prog in ("scan_rank1_state", "scan_rank2_state_two_scans", "scan_two_states"):
                 t = int(rng.integers(1, 5))
                 d = int(rng.integers(1, 4))
@@ -1120,7 +1154,7 @@ def _run(ck: core.Check, env: Env, info):
             continue
         nops = sum(len(v) for v in case.get("lists", {}).values())
         key = (case["mod"], case["ctor"], repr(case.get("lists")), repr(case.get("singles")), repr(case.get("ints")),
-               repr(case.get("axes")), repr(sorted((r, c["beh"], c.get("n")) for r, c in case["cbs"].items())))
+               repr(case.get("axes")), repr(case.get("scan_attrs")), repr(sorted((r, c["beh"], c.get("n")) for r, c in case["cbs"].items())))
         ck.count(key if (nops >= 1 or not all_good(case)) else None)
         stats["ctor"][case["ctor"]] = stats["ctor"].get(case["ctor"], 0) + 1
         stats["stage"][obs["stage"]] = stats["stage"].get(obs["stage"], 0) + 1
